@@ -156,7 +156,7 @@ Theorem contract_legacy_uncompressed log l k hwm fuel g :
   ev_ok (fetch_run decomp fuel) log g
         (GFetch (FData hwm (fetch_response compress l (g_conn g) k) (Z.of_nat k) false)).
 Proof.
-  intros H1 H2 H3 H4 H5 H6 H7 H8 _ _.
+  intros H1 H2 H3 H4 H5 H6 H7 H8 _.
   destruct (batch_decode_exact_legacy_uncompressed log l (g_conn g) k hwm H1 H2 H3 H4 H5 H6 H7 fuel H8)
     as (ms & f & Hr & Hok).
   exists ms, EEOF, f. split; assumption.
